@@ -6,10 +6,12 @@
 (b) construction: every string over the metacharacter vocabulary up to the tier's length (the spec gives vocabulary and length)
     through the package API, a literal, RegExp(), new RegExp() and as a string pattern of String.prototype.match / search; flag
     strings; oversized / truncated specials, huge counts over empty bodies (compile work counted), numeric payloads (every construct
-    that carries a number x magnitudes up to 16^5000 x malformed numerals).  TLC judges outcome typing, agreement with RegexSem's
+    that carries a number x magnitudes up to 16^5000 x malformed numerals; counted quantifiers also x the kind of the quantified atom
+    x the context of the term x magnitudes between the program budget and the host's memory; for the specials the longest program a
+    compiler held and the growth of the peak resident set are recorded).  TLC judges bounded compile work / program size / memory, outcome typing, agreement with RegexSem's
     acceptor resp. the numeric form's rule (accept / reject / outside), agreement of the string channels with new RegExp().
 (c) matching: long-run (catastrophic) and short-run families x subject lengths x run configurations (package API x poll interval;
-    script level x entry point x flags x bare / try-catch) x deadlines in steps on the virtual clock; steps / stack / polls / steps
+    script level x entry point x flags x bare / try-catch; match / search also with the pattern as a string / String object) x deadlines in steps on the virtual clock; steps / stack / polls / steps
     after the deadline counted through the guarded hook, compared by TLC with the model's bounds.
 (d) case folding: the i flag against subjects with characters whose case mapping is several characters or leaves ASCII; outcome
     typing, and match / null where the documented ASCII-only folding rule (RegexSem) decides it."""
